@@ -30,8 +30,8 @@ Local Open Scope Z_scope.
        return remainTtl < (lifeSpan >> 2)           // signed shift = floor division by 4
    }
    (time.Time.Sub saturates at +-2^63 ns = 292 years; instants that far apart are outside the model.) *)
-Definition need_prefetch (stored expire p_now : Z) : bool :=
-  (expire - p_now) <? Z.shiftr (expire - stored) 2.
+Definition need_prefetch (stored expire t : Z) : bool :=
+  (expire - t) <? Z.shiftr (expire - stored) 2.
 
 (* the first instant at which the window test holds: need_prefetch s e n = true <-> threshold s e <= n *)
 Definition prefetch_threshold (stored expire : Z) : Z :=
